@@ -52,6 +52,34 @@ theorem capture_event_body_eq_model (hs : List Nat) (s : St) (dis : Bool) (ev : 
        else (s, false)) := by
   rw [gen_bodies_parsed]; exact Lemmas.DynExec.cev_all hs s dis ev hc
 
+/-- **`insertChildren(ctx, &s, ah)`, executed from the regenerated body** (the upward loop with its two
+    `break`s, `slices.Insert(p.Children, 0, …)`, the restacking `range` loop with the checked store
+    `p.Children[i] = ch`): for every builder, gap, `ah` and every state with `1 ≤ top < 2^64` (how
+    `Draw` calls it) the new `top`, `offset` and children are `DynList.insertChildren`; `top + 1` units
+    of fuel suffice (the loop runs at most once per widget above the top). -/
+theorem insert_children_body_eq_model (hs : List Nat) (cfg : Cfg) (s : St) (ah : Int) (fuel : Nat)
+    (h1 : 1 ≤ s.top) (hlt : s.top < 2 ^ 64) (hF : s.top + 1 ≤ fuel) :
+    runInsert genBodies (builder hs) cfg s [] ah fuel =
+      .ok ({ s with top := (insertChildren true cfg.gap hs s.top ah).1, offset := (insertChildren true cfg.gap hs s.top ah).2.1 },
+           (insertChildren true cfg.gap hs s.top ah).2.2) := by
+  rw [gen_bodies_parsed]
+  have h := Lemmas.DynExec.ins_exec (roBase (builder hs) cfg 0 0) hs rfl s "" fuel ah h1 hlt hF
+  unfold runInsert insertCallee mkM
+  show (match exec (roBase (builder hs) cfg 0 0) (Lemmas.DynTrees.seqOf Lemmas.DynTrees.insParts) fuel ⟨s, [], [("v2", ah)], [], ""⟩ with
+    | .error e => (Except.error e : Except Err (St × List Child))
+    | .ok (m, _) => Except.ok (m.st, m.cs)) = _
+  cases hr : exec (roBase (builder hs) cfg 0 0) (Lemmas.DynTrees.seqOf Lemmas.DynTrees.insParts) fuel ⟨s, [], [("v2", ah)], [], ""⟩ with
+  | error e => rw [hr] at h; simp [Lemmas.DynExec.proj] at h
+  | ok r =>
+    rw [hr] at h
+    simp only [Lemmas.DynExec.proj, Option.some.injEq, Prod.mk.injEq] at h
+    simp only [h.1, h.2.1]
+    rfl
+
+/-- Non-vacuity: three widgets above the top, an upward scroll by seven rows (gap 1, cursor gutter). -/
+example : (runInsert genBodies (builder [2, 1, 3, 1]) ⟨1, true⟩ { init with top := 3, cursor := 3 } [] 7 4).toOption.map
+    (fun r => (r.1.top, r.1.offset, r.2.map (fun c => (c.idx, c.row)))) = some (0, -2, [(0, -2), (1, 1), (2, 3)]) := by decide +kernel
+
 /-- Non-vacuity: `k` on the second of three items, run from the regenerated body. -/
 example : (runCaptureEvent genBodies (builder [1, 2, 3]) false (keyEv ["'k'"]) { init with cursor := 1, top := 1 }).toOption.map
     (fun r => (r.1.cursor, r.1.top, r.2)) = some (0, 0, true) := by decide +kernel
